@@ -15,6 +15,14 @@ CLAIMS = {
    text="Kernel-checked: update, remainder (all 32 pending counts), length injection/rotation, permutation, finalisation outputs and modular reduction of the SSE4.1 and AVX2 models commute with the portable ones for ALL register states; "
         "hence every back end (and whatever the selection ladder picks in any Cfg/Cpu) returns the portable result for all keys, chunkings and widths. " + CORR + " Quick: 6 build configurations; thorough: all 20. Oracle: real SSE/AVX/auto vs real portable.",
    note="Trusted: Lean kernel + bv_decide axioms (listed per theorem in the evidence); intrinsic semantics of HH/Intrin/X86.lean (transcribed from Intel pseudo-code, validated by the streams against the real instructions); model/code correspondence; rustc/LLVM per configuration.", ref="4/C02"),
+ "C03": dict(cat="proof", tech="Lean 4 proof (NEON model over modelled intrinsics refines the portable model for all states; checkpoint interchange from the shared codec theorems) + the real src/aarch64.rs executed under Miri (aarch64) against the model",
+   text="Kernel-checked: the transcription of src/aarch64.rs (vmull/vmovn/vshrn update, vqtbl1q zipper, take::<N>/size&4 remainder for all 32 pending counts, USHL-based rotation, modular reduction) refines the portable model on ALL register states; hence NEON = portable = HighwayHash spec for every key, chunking and width, NEON checkpoints are byte-identical to every other back end's and restore transparently in both directions at every cut. "
+        "Tie: the working-tree source of aarch64.rs (never compiled by the pinned suite on this host) runs under cargo miri --target aarch64-unknown-linux-gnu on the op file; every output incl. every checkpoint byte must equal the Lean NEON model; Miri additionally reports UB (out-of-bounds take::<N>, misaligned loads). Oracle: real NEON vs real portable on the same interpreter.",
+   note="Partial with respect to silicon: intrinsic semantics come from stdarch as interpreted by Miri; llvm.aarch64.neon.ushl.v4i32 (behind vshlq_u32) is supplied by a 15-line shim in the runner written from the Arm ARM. Trusted additionally: HH/Intrin/Neon.lean, Lean kernel + bv_decide axioms (listed in the evidence).", ref="4/C03"),
+ "C04": dict(cat="proof", tech="Lean 4 proof (Wasm simd128 model incl. reversed lane convention refines the portable model for all states) + the real src/wasm.rs executed under Miri (wasm32 +simd128) against the model",
+   text="Kernel-checked: the transcription of src/wasm.rs (lane-reversed V2x64U, emulated _mm_* helpers, u8x16_shuffle zipper, len>=16 remainder split with replace_lane, modulo-width shifts) refines the portable model on ALL register states; hence Wasm = portable = spec for every key, chunking, width, and its checkpoints interchange with every back end. "
+        "Tie: the working-tree wasm.rs runs under MIRI_NO_STD=1 cargo miri --target wasm32-unknown-unknown -Ctarget-feature=+simd128 (no_std/no_main runner) on the op file; every output must equal the Lean Wasm model. Oracle: real Wasm vs real portable on the same interpreter.",
+   note="Partial with respect to a real wasm engine: intrinsic semantics come from stdarch as interpreted by Miri. Trusted additionally: HH/Intrin/Wasm.lean, Lean kernel + bv_decide axioms.", ref="4/C04"),
  "C05": dict(cat="proof", tech="Lean 4 proof (generic buffering theorem by induction over chunk lists, lifted to every back end) + correspondence on the fill x chunk-length grid",
    text="Kernel-checked: for every back end and every hasher state satisfying the packet invariant, every partition of the data into chunks gives the result of one append of the concatenation, at every width; empty appends are identities; all entry points are the same transformer. "
         + CORR + " Dynamic part enumerates the 32 x |C| control skeleton through append/Hasher::write/io::Write::write/write_all/io::copy.",
